@@ -13,7 +13,7 @@ import SqlglotModel.Generated.C17
 namespace SqlglotModel.Properties.C17
 open SqlglotModel.Lineage
 open SqlglotModel.Generated.C17 (keyComps recursiveCalls recursiveCallsPassCache keyNormalisations refNormalisations
-  expandAliasVariant branchCopiesCteSources traverseCtesUpdatesInPlace)
+  expandAliasVariant branchCopiesCteSources traverseCtesUpdatesInPlace memoisedNormalisers)
 open SqlglotModel.Ident (Ident CaseFns Strategy asciiFns)
 
 /-- the configuration the current source induces -/
@@ -331,6 +331,39 @@ theorem cte_shared_dict_leak_witness :
     -- shadowing a base table: `t` is no CTE for the later sibling (none = the physical table) unless it leaks
     cteVisible true [("k", 0)] [[("t", 7)], []] 1 "t" = none ∧
     cteVisible false [("k", 0)] [[("t", 7)], []] 1 "t" = some 7 := by
+  decide +kernel
+
+
+/-! ### no settings-blind memo in front of the key normalisation -/
+
+/-- table fact (decided against the regenerated data): none of `normalize_table_name` (and the helpers it calls),
+    `exp.expand`, `lineage`, `to_node` carries a functools cache or uses a module-level memo dict.  A cache keyed by
+    the dialect object is keyed by its CLASS only (Dialect.__eq__/__hash__ ignore settings): adding one breaks the build. -/
+theorem generated_no_settings_blind_memo : memoisedNormalisers = [] := by decide
+
+/-- **a memo is sound iff its key determines the answer**: when the key contains the settings (or normalisation does
+    not depend on them), for EVERY call history — any interleaving of dialect classes, strategies and key texts,
+    starting from any memo whose entries are right (`MemoOk`; the empty one in particular) — the memoised
+    normalisation answers exactly `normKey`, and the memo stays right. -/
+theorem expand_key_memo_sound (hs : Bool) (f : CaseFns) (hk : KeyDetermines hs f)
+    (calls : List (String × Strategy × List Ident)) (memo : NormMemo) (hm : MemoOk hs f memo) :
+    runNormMemo hs f calls memo = calls.map fun c => normKey f c.2.1 c.2.2 :=
+  runNormMemo_sound hk calls memo hm
+
+example (hs : Bool) (f : CaseFns) : MemoOk hs f [] := by
+  intro kv h; cases h
+
+example (f : CaseFns) : KeyDetermines true f := Or.inl rfl
+
+/-- witness for the class-only key: `orders` under Snowflake's UPPERCASE, then the same text under a Snowflake
+    object with CASE_SENSITIVE — the second call returns the stale `ORDERS` (so the `sources=` key no longer matches
+    the table reference `orders`); with the strategy in the key it returns `orders` -/
+theorem expand_key_memo_without_settings_witness :
+    runNormMemo false asciiFns [("snowflake", .uppercase, [⟨"orders", false⟩]), ("snowflake", .caseSensitive, [⟨"orders", false⟩])] []
+      = ["ORDERS", "ORDERS"] ∧
+    runNormMemo true asciiFns [("snowflake", .uppercase, [⟨"orders", false⟩]), ("snowflake", .caseSensitive, [⟨"orders", false⟩])] []
+      = ["ORDERS", "orders"] ∧
+    SqlglotModel.Lineage.normKey asciiFns .caseSensitive [⟨"orders", false⟩] = "orders" := by
   decide +kernel
 
 end SqlglotModel.Properties.C17
